@@ -174,7 +174,7 @@ func VC19_Walk() {
 		{vc19shape{1, 31, 1}, 1}, {vc19shape{2, 63, 1}, 1}}
 	if vf.Thorough() {
 		shapes = []walkShape{{vc19shape{1, 30, 1}, 2}, {vc19shape{1, 32, 1}, 2}, {vc19shape{1, 100, 1}, 2}, {vc19shape{2, 64, 1}, 2}, {vc19shape{3, 200, 1}, 2},
-			{vc19shape{1, 1000, 1}, 1}, {vc19shape{10, 2000, 1}, 1}, {vc19shape{1, 255, 2}, 1}, {vc19shape{1, 31, 1}, 3}, {vc19shape{2, 63, 1}, 1}, {vc19shape{1, 63, 1}, 1}}
+			{vc19shape{1, 1000, 1}, 1}, {vc19shape{10, 2000, 1}, 1}, {vc19shape{1, 255, 2}, 1}, {vc19shape{1, 31, 1}, 3}, {vc19shape{2, 63, 1}, 1}}
 	}
 	ws := shapes[vf.Choice("shape", len(shapes))]
 	s := ws.vc19shape
